@@ -95,3 +95,67 @@ h_attribute_list_roundtrip.encodes = [Composer._write_star_constraints, VerilogP
                                       vt.is_valid_identifier]
 h_attribute_list_roundtrip.bounds = {"entries": "up to 3 keys (%s), each absent / key only / key = value" % KEYS,
                                      "values": "table %s or any string over 'a1_' up to length %d" % (VALUES, L)}
+
+
+def _renderings(name, lower, width, s, w):
+    """every Verilog spelling of bits s..s+w-1 (positions) of a `width`-bit net declared [lower+width-1:lower]"""
+    lo, hi = lower + s, lower + s + w - 1
+    out = []
+    if w == 1:
+        out.append(name + "[" + str(lo) + "]")
+        if width == 1:
+            out.append(name)
+    out.append(name + "[" + str(hi) + ":" + str(lo) + "]")
+    if w == width:
+        out.append(name)
+    return out
+
+
+def h_assign_statement_names_the_connected_bits(wa: int, wb: int, la: int, lb: int, sa: int, sb: int, w: int) -> bool:
+    """
+    pre: 1 <= wa <= 3 and 1 <= wb <= 3
+    pre: 0 <= la <= 40 and 0 <= lb <= 40
+    pre: 1 <= w <= 3 and 0 <= sa and sa + w <= wa and 0 <= sb and sb + w <= wb
+    pre: True  # EXCLUSIONS
+    post: _ == True
+    """
+    # an assignment cell (library SDN_VERILOG_ASSIGNMENT, ports i and o of width w) whose o pins sit on bits
+    # sa..sa+w-1 of net a (declared [la+wa-1:la]) and whose i pins sit on bits sb.. of net b: the statement the real
+    # writer emits is one of the Verilog spellings of exactly those bits -- in particular with non-zero base indices
+    import spydrnet as sdn
+    nl = sdn.Netlist()
+    work, asg = nl.create_library("work"), nl.create_library("SDN_VERILOG_ASSIGNMENT")
+    cell = asg.create_definition("SDN_VERILOG_ASSIGNMENT_%d" % 1)
+    pi, po = cell.create_port("i"), cell.create_port("o")
+    pi.direction, po.direction = sdn.IN, sdn.OUT
+    pi.create_pins(w)
+    po.create_pins(w)
+    top = work.create_definition("top")
+    a, b = top.create_cable("a"), top.create_cable("b")
+    a.create_wires(wa)
+    b.create_wires(wb)
+    a.lower_index, b.lower_index = la, lb
+    inst = top.create_child("asg0", reference=cell)
+    for k in range(w):
+        a.wires[sa + k].connect_pin(inst.pins[po.pins[k]])
+        b.wires[sb + k].connect_pin(inst.pins[pi.pins[k]])
+    c = Composer.__new__(Composer)
+    c.file = _Sink()
+    try:
+        c._write_assignment(inst)
+    except Exception:      # a legal assignment is refused (index assertions of the writer): nothing readable is written
+        return False
+    text = "".join(c.file.parts)
+    for left in _renderings("a", la, wa, sa, w):
+        for right in _renderings("b", lb, wb, sb, w):
+            if text == "assign " + left + " = " + right + ";\n":
+                return True
+    return False
+
+
+h_assign_statement_names_the_connected_bits.encodes = [Composer._write_assignment, Composer._write_bundle_with_indicies,
+                                                       Composer._write_brackets, Composer._index_of_wire_in_cable,
+                                                       Composer._all_wires_and_cables_from_pinset,
+                                                       Composer._is_pinset_concatenated]
+h_assign_statement_names_the_connected_bits.bounds = {
+    "nets": "two nets of width 1..3, base index 0..40 each (symbolic)", "assignment": "width 1..3, any contiguous aligned slice"}
